@@ -131,7 +131,7 @@ class Ctx:
         rpath = cpath + ".report.json"
         p = subprocess.run([VH, "replay", family, cpath, rpath], stdout=subprocess.PIPE,
                            stderr=subprocess.STDOUT, text=True, timeout=3600,
-                           env=dict(os.environ, VERIF_SEED=str(self.seed), **(env or {})))
+                           env=dict(os.environ, VERIF_SEED=str(self.seed), VERIF_TIER_RUN=self.tier, **(env or {})))
         if p.returncode != 0 or not os.path.exists(rpath):
             raise Machinery("harness replay %s failed (rc=%s):\n%s" % (family, p.returncode, p.stdout[-3000:]))
         rep = json.load(open(rpath))
